@@ -1054,19 +1054,33 @@ func (b *bitstream) readN(n uint64) ([]byte, error) {
 		return nil, nil
 	}
 
-	bs := make([]byte, n)
-	actual, err := io.ReadFull(b.in, bs)
-	b.pos += uint64(actual)
+	// n is a length declared by the input: read (and allocate) at most one chunk at a
+	// time, so that memory grows with the data actually present, not with n.
+	var bs []byte
+	for uint64(len(bs)) < n {
+		m := n - uint64(len(bs))
+		if m > readChunkSize {
+			m = readChunkSize
+		}
 
-	if err == io.EOF || err == io.ErrUnexpectedEOF {
-		return nil, &UnexpectedEOFError{b.pos}
-	}
-	if err != nil {
-		return nil, &IOError{err}
+		off := len(bs)
+		bs = append(bs, make([]byte, m)...)
+		actual, err := io.ReadFull(b.in, bs[off:])
+		b.pos += uint64(actual)
+
+		if err == io.EOF || err == io.ErrUnexpectedEOF {
+			return nil, &UnexpectedEOFError{b.pos}
+		}
+		if err != nil {
+			return nil, &IOError{err}
+		}
 	}
 
 	return bs, nil
 }
+
+// ReadChunkSize is the most readN allocates before having seen the data that fills it.
+const readChunkSize = 64 * 1024
 
 // Read1 reads the next byte of input from the underlying stream, returning
 // an UnexpectedEOFError if it's an EOF.
